@@ -717,6 +717,90 @@ func io2(head string, body []byte) *bytes.Reader {
 	return bytes.NewReader(append([]byte(head), body...))
 }
 
+// keyLengthCases drives the verification paths with public keys of the wrong
+// length, as a remote server can publish them (old_verify_keys, third-party
+// invite public_keys, pseudo-ID senders).
+func (x *c18) keyLengthCases(worlds map[gmsl.RoomVersion]*world) {
+	c := x.c
+	if c.Shard != 0 {
+		return
+	}
+	id := serverIdentity("origin.example")
+	signed, _ := gmsl.SignJSON(id.Server, gmsl.KeyID(id.KeyID), id.Priv, []byte(`{"a":1}`))
+	for _, n := range []int{0, 1, 31, 33, 64} {
+		key := make([]byte, n)
+		name := fmt.Sprintf("key-length:%d", n)
+		c.Case(name, map[string]any{"public_key_bytes": n}, func() {
+			c.Nontrivial(name)
+			x.step("VerifyJSON(short-key)", func() { _ = gmsl.VerifyJSON(id.Server, gmsl.KeyID(id.KeyID), key, signed) })
+			x.step("KeyRing(short-key-record)", func() {
+				db := newMemKeyDB()
+				db.set(id.Server, id.KeyID, key, farFuture, 0)
+				_, _ = (&gmsl.KeyRing{KeyDatabase: db}).VerifyJSONs(context.Background(), []gmsl.VerifyJSONRequest{{ServerName: spec.ServerName(id.Server), AtTS: 5, Message: signed, ValidityCheckingFunc: gmsl.NoStrictValidityCheck}})
+			})
+			x.step("DirectKeyFetcher(short-old-key)", func() {
+				kw := newKeyWorld(gen.NewRand(9, "kl"))
+				kr := kw.keyResponse(gen.NewRand(9, "kl2"), "a.example", farFuture, "", nil, "")
+				v := ref.MustParse(kr.json)
+				v.Get("old_verify_keys").Set("ed25519:old", ref.O("key", ref.S(spec.Base64Bytes(key).Encode()), "expired_ts", ref.I(farFuture)))
+				// re-sign so that the response is accepted
+				v.Del("signatures")
+				aid := kw.keys[[2]string{"a.example", "ed25519:k1"}]
+				resigned, _ := gmsl.SignJSON("a.example", "ed25519:k1", aid.Priv, gen.Plain().Bytes(v))
+				var sk gmsl.ServerKeys
+				if err := json.Unmarshal(resigned, &sk); err != nil {
+					return
+				}
+				client := &scriptedKeyClient{direct: map[string]func() (gmsl.ServerKeys, error){"a.example": func() (gmsl.ServerKeys, error) { return sk, nil }}}
+				ring := &gmsl.KeyRing{KeyDatabase: newMemKeyDB(), KeyFetchers: []gmsl.KeyFetcher{&gmsl.DirectKeyFetcher{Client: client, IsLocalServerName: func(spec.ServerName) bool { return false }}}}
+				msg, _ := gmsl.SignJSON("a.example", "ed25519:old", aid.Priv, []byte(`{"b":2}`))
+				_, _ = ring.VerifyJSONs(context.Background(), []gmsl.VerifyJSONRequest{{ServerName: "a.example", AtTS: 5, Message: msg, ValidityCheckingFunc: gmsl.NoStrictValidityCheck}})
+			})
+			for ver, w := range worlds {
+				ver, w := ver, w
+				x.step("Allowed(third-party-invite,short-key)", func() {
+					pub := spec.Base64Bytes(key).Encode()
+					tpi, err := w.build("m.room.third_party_invite", strp("tokX"), authUsers[0], ref.O("display_name", ref.S("x"), "public_keys", ref.A(ref.O("public_key", ref.S(pub)))), nil, "")
+					if err != nil {
+						return
+					}
+					inv, err := w.build("m.room.member", strp(authUsers[3]), authUsers[0], ref.O("membership", ref.S("invite"), "third_party_invite", w.signedTPI(authUsers[3], "tokX", true)), nil, "")
+					if err != nil {
+						return
+					}
+					state := []gmsl.PDU{w.create, w.pls[0], w.members[[2]string{authUsers[0], "join"}], tpi}
+					if prov, err := gmsl.NewAuthEvents(state); err == nil {
+						_ = gmsl.Allowed(inv, prov, userIDForSender)
+					}
+				})
+				_ = ver
+			}
+			x.step("VerifyEventSignatures(pseudo-id-sender,short-key)", func() {
+				w := worlds[gmsl.RoomVersionPseudoIDs]
+				if w == nil {
+					return
+				}
+				base := ref.MustParse(w.members[[2]string{authUsers[2], "join"}].JSON())
+				sender := spec.Base64Bytes(key).Encode()
+				if sender == "" {
+					sender = "AAAA"
+				}
+				base.Set("sender", ref.S(sender))
+				base.Set("type", ref.S("m.room.message"))
+				base.Del("state_key")
+				base.Set("signatures", ref.O(sender, ref.O("ed25519:1", ref.S(spec.Base64Bytes(make([]byte, 64)).Encode()))))
+				m := rehashAndSign(base, w.t)
+				m.Get("signatures").Set(sender, ref.O("ed25519:1", ref.S(spec.Base64Bytes(make([]byte, 64)).Encode())))
+				if p, err := gmsl.MustGetRoomVersion(gmsl.RoomVersionPseudoIDs).NewEventFromUntrustedJSON(gen.Plain().Bytes(m)); err == nil || isPersistable(err) {
+					if p != nil {
+						_ = gmsl.VerifyEventSignatures(context.Background(), p, &gmsl.KeyRing{KeyDatabase: c18db}, userIDForSender)
+					}
+				}
+			})
+		})
+	}
+}
+
 func runC18(c *mon.Ctx) {
 	versions := sortedVersions()
 	r := c.Rand("inputs")
@@ -728,6 +812,7 @@ func runC18(c *mon.Ctx) {
 		worlds[ver] = newWorld(c.RandShared("world"+string(ver)), ver, "plain", 3)
 	}
 	x := &c18{c: c}
+	x.keyLengthCases(worlds)
 	x.fieldEnumeration(r, versions, worlds)
 	x.byteMutation(r, versions, worlds, c.Scale(16000, 1600000), c.Scale(16000, 1600000))
 	c.Floor("field_cases_accepted_by_a_parser", 1000)
